@@ -430,7 +430,13 @@ func (g *gen) unit(i int) (string, UnitTruth) {
 		nu := rapid.IntRange(0, 4).Draw(t, "nUsedExtraImports")
 		for k := 0; k < nu; k++ {
 			nm := g.names.Class(t)
-			switch rapid.IntRange(0, 6).Draw(t, "usedImportKind") {
+			switch rapid.IntRange(0, 8).Draw(t, "usedImportKind") {
+			case 7: // receiver of a static field only
+				usage = append(usage, "Object c"+fmt.Sprint(k)+" = "+nm+".DEFAULT;")
+				imps = append(imps, impLine{text: "org.lib." + nm, verdict: "keep", why: "used as receiver of a static field"})
+			case 8: // receiver of a static field that is then called
+				usage = append(usage, "long t"+fmt.Sprint(k)+" = "+nm+".SECONDS.toMillis("+fmt.Sprint(k)+");")
+				imps = append(imps, impLine{text: "org.lib." + nm, verdict: "keep", why: "used as receiver of a static field with a call"})
 			case 0: // annotation
 				if usageAnn == "" {
 					usageAnn = nm
